@@ -21,5 +21,5 @@ OBLIGATIONS = [
        props=("C06", "C02", "C12"), gi_pre=RC, assumes=GA, bound="values: message length <= 65535"),
     ob("c06.f.open", "hf_open", ["crypto_sign_ed25519_open"], "sign_open: shorter than 64 => -1; failure => zero-filled output and length 0; success => message copied and length smlen-64",
        props=("C06", "C02", "C12"), gi_pre=["--replace-calls", "crypto_sign_ed25519_verify_detached:s_verify_detached"], assumes=["verify_detached replaced by an arbitrary verdict here (its check set: c06.f.verify_detached)", "memmove over-approximated (exact at a ghost offset)"],
-       bound="values: smlen <= 4160"),
+       bound="values: smlen <= 4160", cbmc=["--unwind", "66", "--unwinding-assertions", "--object-bits", "18"]),
 ]
